@@ -147,7 +147,8 @@ RUN_VALS = ['"true"', MISSING, "None", "3", '["true"]', '"./x.sh --flag"']
 PAR_VALS = [MISSING, "True", "False", "None", "1", '"yes"']
 ARGS_VALS = [MISSING, "[]", '["a", 1, 1.5, True]', "None", '"abc"', '("a",)', "[None]", '[["x"]]', '[{"a": 1}]']
 OPT_VALS = [MISSING, "{}", '{"k": "v", "n": 1, "f": 0.5, "b": False}', "None", '[("k", "v")]', '{1: "v"}', '{"k": None}', '{"k": [1]}']
-DEPS_VALS = [MISSING, "[]", '[":d1"]', '["//:d1", "//p:d2"]', "None", '":d1"', '(":d1",)', "[1]", '["d1"]', '[":a b"]',
+DEPS_VALS = [MISSING, "[]", '[":d1"]', '["//:d1", "//p:d2"]', "None", '":d1"', '(":d1",)', "[1]", '["d1"]', '[":a b"]', '{":d1"}', '{":d1": 1}', '()', '""',
+             '["//:d1", "//:d1/"]', '["//p:d2", "//p/:d2"]',
              '["//x y:d1"]', '["p:d2"]', '[":d1", ":d1"]', '[":d1", "//:d1"]', '[":nope"]', '[":d1\\n"]']
 COMBINE_DEPS_EXTRA = ['["//:d2", "//p:d2"]', '["//:d1", "//p:d2"]']
 EXTRA_VALS = [MISSING, "foo=1"]
@@ -198,7 +199,9 @@ EXP_VALS = [MISSING, "[]", '[ExperimentInstance(name="e1")]',
             '[ExperimentInstance(name="d1")]', '[ExperimentInstance(name="a b")]', '[ExperimentInstance(name=5)]',
             '[ExperimentInstance(name="e1", args=None)]', '[ExperimentInstance(name="e1", args=[[1]])]',
             '[ExperimentInstance(name="e1", options={1: 2})]', '[ExperimentInstance(name="e1", options={"k": None})]',
-            '[ExperimentInstance(name="e1", parallelizable="x")]', '[ExperimentInstance(name="e1", parallelizable=1)]']
+            '[ExperimentInstance(name="e1", parallelizable="x")]', '[ExperimentInstance(name="e1", parallelizable=1)]',
+            '[ExperimentInstance(name="e1", args=("a",))]', '[ExperimentInstance(name="e1", args="ab")]',
+            '[ExperimentInstance(name="e1", options=[("k", 1)])]', '[ExperimentInstance(name="e1", args={"x": 1})]']
 CHAIN_VALS = [MISSING, "True", "False", "None", '"yes"', "1"]
 CONSTRUCTORS["run_experiment_group"] = [("name", NAME_VALS), ("run", RUN_VALS), ("experiments", EXP_VALS),
                                         ("chain_experiments", CHAIN_VALS), ("deps", DEPS_VALS), ("<extra>", EXTRA_VALS)]
